@@ -145,6 +145,7 @@ def run(ctx):
         i += 1
         cases.append(exec_case(ctx, "c08_%d" % i, rng.randint(2, 4), nulls=[False] * 4, allow=[253, 252, 3]))
     BIG[0] = False
+    huge = []
     if not ctx.quick():
         for n in (2**24 - 1, 2**24, 2**24 + 5):
             i += 1
@@ -154,11 +155,13 @@ def run(ctx):
                         ["p reply 7 %s 0" % progs.cols_tok([dict(table=b"", name=b"?", type=252, flags=0)] * 2), "x all none,none done 0 0"],
                         chunks=[1 << 20], cap=1 << 26)
             c.meta["expect_calls"] = ["execute|7", "param|252|bytes:" + blob.hex(), "param|3|int:77"]
-            cases.append(c)
+            huge.append(c)      # too large for the list-based model: implementation vs specification only
     # several executions of one statement, each binding its own (different) types
     from . import c16
     multi = [c16.history_case(ctx, "c08m_%d" % j, plan=[(j % 2, True)] * rng.randint(2, 4)) for j in range(20 if ctx.quick() else 300)]
     ctx.diff_conn(multi, tag="C08multi", oracle=c16.oracle, nontrivial=lambda c, o: True, classify=lambda c, o: ["multi_execution"])
+    if huge:
+        ctx.impl_only(huge, oracle=oracle, tag="C08huge")
     ctx.diff_conn(cases, oracle=oracle, nontrivial=lambda c, o: len(c.meta["expect_calls"]) > 1,
                   classify=lambda c, o: ["params_%d" % min(len([x for x in c.meta["expect_calls"] if x.startswith("param")]), 21)] +
                                         list({"conv_" + x.split("|")[0] for x in c.meta["expect_calls"]}))
